@@ -311,6 +311,15 @@ func checkC13(c *Ctx) {
 			auto := !isPermFault(f.kind) && f.kind != "vanish" && f.kind != "replace-invalid" && chance(r, 30)
 			c13Scenario(cs, base, f, second, auto, fmt.Sprintf("%s/fault:%d", cs.Name, n))
 			c.AddEvaluations(1)
+			if !auto && second == nil && (f.kind == "missing" || f.kind == "isfile" || f.kind == "enotdir") {
+				// a directory that cannot be scanned (and cannot be watched): always in
+				// auto-refresh mode as well, whatever the PRNG chose above
+				// (once staying in auto-refresh mode through the repair, once switched to manual
+				// refresh while the fault is still there)
+				c13Scenario(cs, base, f, nil, true, fmt.Sprintf("%s/fault:%d/auto", cs.Name, n))
+				c13Scenario(cs, base, f, nil, true, fmt.Sprintf("%s/fault:%d/auto-then-manual", cs.Name, n))
+				c.AddEvaluations(2)
+			}
 		}
 	})
 	// the package-level default cache, whose first use in a process is the explicit
@@ -731,7 +740,7 @@ func c13Scenario(cs *Case, base *Pop, f c13Fault, second *c13Fault, auto bool, n
 				return
 			}
 		}
-		if ac != nil && nameHash(name)%5 < 2 {
+		if ac != nil && (strings.HasSuffix(name, "/auto-then-manual") || (!strings.HasSuffix(name, "/auto") && nameHash(name)%5 < 2)) {
 			// the cache is switched to manual refresh while the fault is still there: from
 			// here on it is a manual cache (what the watcher recorded belongs to the past)
 			cache.Configure(cdi.WithAutoRefresh(false))
